@@ -280,3 +280,31 @@ def may_ground_infinitely(prg: list[AST]) -> bool:
                     continue
                 return True
     return False
+
+
+def gringo_scope_quirk(prg: list[AST]) -> bool:
+    """A variable name that is local both to a choice / head-aggregate element and to a body aggregate or
+    conditional literal of the same rule.  gringo 5.8 joins the two scopes when it rewrites the head elements
+    ('{ bar(X): dom(X) } :- 14 > #min { X: foo(X) }.' derives nothing for foo(2), dom(3), while the alpha-variant
+    with Z in the head derives { bar(3) }), so the meaning of such a rule depends on variable names.  The
+    oracle cannot be trusted on these programs; they are discarded and counted."""
+    for s in prg:
+        if s.ast_type != ASTType.Rule or s.head.ast_type not in (ASTType.Aggregate, ASTType.HeadAggregate):
+            continue
+        plain: set[str] = set()
+        inner: set[str] = set()
+        for lit in s.body:
+            if lit.ast_type == ASTType.Literal and lit.atom.ast_type in (ASTType.BodyAggregate, ASTType.Aggregate):
+                for g in (lit.atom.left_guard, lit.atom.right_guard):
+                    if g is not None:
+                        plain.update(variables_in(g))
+                for e in lit.atom.elements:
+                    inner.update(variables_in(e))
+            elif lit.ast_type == ASTType.ConditionalLiteral:
+                inner.update(variables_in(lit))
+            else:
+                plain.update(variables_in(lit))
+        head_vars = set(variables_in(s.head))
+        if (head_vars & inner) - plain - {"_"}:
+            return True
+    return False
